@@ -90,6 +90,13 @@ func init() {
 			callValidator(o, "isNumeric", "1"+c)
 			callValidator(o, "isAmount", c+"1")
 		}
+		// numeric / amount validators: signs, exponents, radix prefixes, blanks, full-width digits
+		for _, s := range []string{"+1", "-1", "+", "-", "-0", "+00001234567", "-00001234567", "1e5", "1E5", "0x10", "0b1", "0o7", "1_000", " 1", "1 ", "1 2",
+			"\xef\xbc\x91", "\xd9\xa1", "1,000", "1.5", ".5", "5.", ",", ".", "1,,2", ",1,", "1..2", "Inf", "NaN", "١٢٣"} {
+			for _, n := range []string{"isNumeric", "isAmount", "isAmountImplied", "isAlphanumeric"} {
+				callValidator(o, n, s)
+			}
+		}
 		// code lists: all strings up to length 2 over a reduced alphabet, members, near-misses
 		small := smallStrings(2, []string{" ", "0", "1", "3", "9", "B", "C", "P", "T", "O", "I", "M", "b", "*"})
 		members := []string{"BTR", "CKS", "CTP", "CTR", "DEP", "DRB", "DRC", "DRW", "FFR", "FFS", "SVC", "10", "15", "16", "00", "01", "02", "07", "08", "31", "32", "33", "90",
